@@ -1,5 +1,6 @@
 (** C04 — Adaptive fixed-width histograms never lose a value when bins grow. *)
 From Physt Require Import Adaptive OrderQc AdaptiveProofs FWFloat ArithProofs.
+From Coq Require Import PrimFloat.
 
 Definition C04_full_statement : Prop := forall c, wf_c04 c = true -> z_exact c = true ->
   check_C04 c (LL [e_list e_astep (arun (z_init c) (z_ops c)); SS "skip"]) = true.
